@@ -190,7 +190,8 @@ Proof.
   destruct BU as [w [BU [IE NOK]]].
   assert (RUN : exists e, fwd_run p w 2 1 1 false (fun _ => None) 100 init = Some e /\
             e_at (e_pre env e 2) 0%N = mkI (Fin 0) PInf /\ e_at (e_pre env e 1) 0%N = mkI (Fin 1) PInf).
-  { vm_compute in BU. inversion BU; subst w. eexists. repeat split; vm_compute; reflexivity. }
+  { vm_compute in BU. inversion BU; subst w. eexists.
+    split; [vm_compute; reflexivity|]. split; vm_compute; reflexivity. }
   destruct RUN as [e [RUN [E2 E1]]].
   pose proof (fwd_run_sound_any_entry p W false (fun _ => None) (fun s => s 0%N = 0%Z) init IS 1 1 100 0 2 w e BU IE RUN) as [S1 _].
   split; [exact W|]. split; [exact IS|].
